@@ -42,5 +42,7 @@ def tasks(tier, seed=0):
             task(Z, "ob_extrema", "z3solve._extrema/true-optimum", ["C11", "C17"], tier=tier)]
     from vf.contracts import fullfront
     out += [task("vf.contracts.fullfront", "ob_fullfront", f"fullfrontend.{m}/protocol", ["C11", "C14"], method=m, tier=tier) for m in fullfront.METHODS]
+    out.append(task("vf.contracts.layers", "ob_method_coverage", "layer.methods/every-mixin-method-accounted-for", ["C11", "C14"]))
+    out.append(task("vf.contracts.layers", "ob_stack_composition", "layer.stacks/every-layer-under-contract+caches-over-exact-frontends", ["C11", "C13"], replay="vf.contracts.layers:replay_composition"))
     out.append(task("vf.contracts.canaries", "ob_canaries", "harness.canaries/wrong-methods-are-noticed", ["C03", "C11", "C12", "C13", "C15"], tier=tier))
     return out + _rtc.rtc_tasks("C11", tier, seed)
